@@ -22,7 +22,7 @@ from .common import guarded, Results, prove_pairs, group_extract, write_replay, 
 
 PROP = "C19"
 KINDS = ["dr_exp", "dr_expinv", "d2r_exp", "d2r_expinv", "ad"]
-OFFS = [(0, 0), (1, 2), (3, 5)]          # (i0, extra rows/cols beyond Dof)
+OFFS = [(0, 0, 0), (1, 2, 0), (3, 5, 0), (1, 2, 2), (0, 1, -1)]   # (i0, extra rows/cols beyond Dof, Hessian hosts: stacked blocks beyond/below the row count)
 
 
 def groups(tier):
@@ -48,11 +48,11 @@ static inline void dump_pattern(int kind, int * nnz, int * inner, int * outer)
   for (int k = 0; k < pat.nonZeros(); ++k) inner[k] = pat.innerIndexPtr()[k];
   for (int c = 0; c <= pat.cols(); ++c) outer[c] = pat.outerIndexPtr()[c];
 }
-static inline void host(int kind, int i0, int n, const double * a, const double * vals, double * ovals, int * pre_inner, int * pre_outer,
+static inline void host(int kind, int i0, int n, int xb, const double * a, const double * vals, double * ovals, int * pre_inner, int * pre_outer,
                         int * post_inner, int * post_outer, int * inblock, int * flags)
 {
   const bool hess = (kind == 2 || kind == 3);
-  const int cols  = hess ? n * n : n;
+  const int cols  = hess ? n * (n + xb) : n;     // Hessian hosts: n + xb horizontally stacked blocks of width n
   Eigen::SparseMatrix<double> sp(n, cols);
   const auto & pat = pattern_of(kind);
   // stored entries: host diagonal and a dense first row (extra entries, above the block when i0 > 0) + published pattern at the block offset
@@ -96,12 +96,12 @@ static inline void host(int kind, int i0, int n, const double * a, const double 
         if kind.startswith("d2") and not G.has_hess:
             continue
         t += 'extern "C" void %s_pat_%s(int*nnz,int*inner,int*outer){ dump_pattern(%d, nnz, inner, outer); }\n' % (p, kind, k)
-        for (i0, ex) in OFFS:
-            if kind == "ad" and i0 != 0:
+        for oi, (i0, ex, xb) in enumerate(OFFS):
+            if (kind == "ad" and i0 != 0) or (xb and not kind.startswith("d2")):
                 continue
             n = G.dof + ex
             t += ('extern "C" void %s_sp_%s_%d(const double*a,const double*v,double*ov,int*pi,int*po,int*qi,int*qo,int*ib,int*fl)'
-                  '{ host(%d, %d, %d, a, v, ov, pi, po, qi, qo, ib, fl); }\n' % (p, kind, i0, k, i0, n))
+                  '{ host(%d, %d, %d, %d, a, v, ov, pi, po, qi, qo, ib, fl); }\n' % (p, kind, oi, k, i0, n, xb))
     return t
 
 
@@ -175,11 +175,11 @@ def run_group(gname, tier="quick", seed=0, canary=False):
                                 lambda rn: G.sample_tangent(rn, "a"), pv, (xg, p + "_" + kind, dbufs), seed=seed)
                 else:
                     res.add("%s::%s/pattern-contains-support/p%d" % (tag, kind, k), "proved", "struct", 0.0, "pattern is dense")
-            for (i0, ex) in OFFS:
-                if kind == "ad" and i0 != 0:
+            for oi, (i0, ex, xb) in enumerate(OFFS):
+                if (kind == "ad" and i0 != 0) or (xb and not hess):
                     continue
                 n = N + ex
-                hc = n * n if hess else n
+                hc = n * (n + xb) if hess else n
                 # number of stored entries: host diagonal + dense first row + pattern block
                 stored = set((r, r) for r in range(n)) | set((0, c) for c in range(hc))
                 for (r, c) in pat:
@@ -192,12 +192,12 @@ def run_group(gname, tier="quick", seed=0, canary=False):
                 nnz = len(order)
                 bufs = [("a", N, s), ("v", nnz, s), ("ov", nnz, s), ("pi", nnz, "i32"), ("po", hc + 1, "i32"), ("qi", nnz, "i32"),
                         ("qo", hc + 1, "i32"), ("ib", 1, "i32"), ("fl", 5, "i32")]
-                fn = "%s_sp_%s_%d" % (p, kind, i0)
+                fn = "%s_sp_%s_%d" % (p, kind, oi)
                 views = xt.run(fn, bufs, realmode=False, max_paths=4096)
                 v0 = vars_("v", nnz, s)
                 for k, pv in enumerate(views):
                     res.paths += 1
-                    oid = "%s::%s/i0=%d,n=%d/p%d" % (tag, kind, i0, n, k)
+                    oid = "%s::%s/i0=%d,n=%d%s/p%d" % (tag, kind, i0, n, ",blocks=%d" % (n + xb) if xb else "", k)
                     if pv.status != "ok":
                         if pv.status == "assert" and "isCompressed" not in pv.detail and "rows()" in pv.detail:
                             continue
